@@ -40,6 +40,12 @@ def bounds(tier):
 
 
 FAMILIES = {
+    # counts of DISTINCT things that end up in one message or one set (n different field keys each repeated, n entries
+    # all with the same key, n different @string keys each defined twice, n failed blocks of n different kinds)
+    "distinct_repeated_field_keys": lambda n: "@a{k, " + ", ".join(f"f{i} = 1, f{i} = 2" for i in range(n)) + "}",
+    "distinct_repeated_field_keys_apart": lambda n: "@a{k, " + ", ".join(f"f{i} = 1" for i in range(n)) + ", " + ", ".join(f"f{i} = 2" for i in range(n)) + "}",
+    "distinct_repeated_string_keys": lambda n: "".join(f"@string{{s{i} = {{a}}}}\n" for i in range(n)) * 2 + "@a{k, t = s0}",
+    "distinct_repeated_entry_keys": lambda n: "".join(f"@a{{k{i}, t = {{x}}}}\n" for i in range(n)) * 3,
     "blank_lines": lambda n: "\n" * n,
     "comment_lines": lambda n: "% c\n" * n,
     "lines_in_value": lambda n: "@a{k, t = {" + "x\n" * n + "}}",
